@@ -91,9 +91,9 @@ func (ip *Interp) Exec(line string) ([]string, error) {
 		if err1 != nil || err2 != nil || ns < 0 || ns > 999_999_999 {
 			return nil, fmt.Errorf("BEGIN: bad time")
 		}
-		if ok, _ := ip.R.Begin(time.Unix(sec, ns)); !ok {
+		if ok, why := ip.R.Begin(time.Unix(sec, ns)); !ok {
 			ip.ph = phStopped
-			return []string{"B panic"}, nil
+			return []string{"B panic", "b panic " + oneToken(why)}, nil
 		}
 		ip.ph = phBlock
 		return []string{"B ok"}, nil
@@ -160,7 +160,21 @@ func (ip *Interp) Exec(line string) ([]string, error) {
 		}
 		ip.R.Commit()
 		ip.ph = phIdle
-		return append([]string{"K ok"}, ip.R.Digest()...), nil
+		out := append([]string{"K ok"}, ip.R.Digest()...)
+		// registered invariants of every module, evaluated on the committed state (soft lines, only when broken)
+		return append(out, ip.R.BrokenInvariants()...), nil
 	}
 	return nil, fmt.Errorf("unknown script line %q", toks[0])
+}
+
+// oneToken squeezes a message into one trace token (first 160 bytes, blanks to underscores).
+func oneToken(s string) string {
+	s = strings.Join(strings.Fields(s), "_")
+	if len(s) > 160 {
+		s = s[:160]
+	}
+	if s == "" {
+		return "-"
+	}
+	return s
 }
